@@ -392,6 +392,77 @@ def check_deterministic(ctx, R="C18.deterministic"):
             ctx.finding(R, init, f"{ci.name} valueType {vt} has no codec", f"primitive distribution {ci.name} samples values of type `{vt}`, for which no codec / encodeTo exists")
 
 
+
+RUNTIME_MODULE_PREFIXES = ("scenic.core.dynamics", "scenic.core.simulators")
+RUNTIME_RNG_OK = {}  # qualname -> reason (none on the current tree)
+
+
+def check_recorded(ctx, R="C18.recorded"):
+    ctx.rule(
+        R,
+        "every run-time draw is recorded: the code that executes while a simulation runs (scenic.core.dynamics.*, scenic.core.simulators) "
+        "never calls the global generators (random.*, numpy.random.*) itself; its random choices are made by constructing distribution "
+        "objects, whose Distribution.__new__ records the value during a simulation and takes it from the replay when one is followed "
+        "(C19.runtime checks that path).  A direct draw is invisible to the replay: the replayed run takes another branch whenever the "
+        "generator state differs.  Positive control: the same matcher must find the draws of the primitive distributions",
+    )
+    model = ctx.model
+
+    def rng_target(mod, c):
+        r = model.resolve_expr(mod, c.func)
+        if isinstance(r, tuple) and r[0] == "ext" and (r[1].startswith(("random.", "numpy.random.")) or r[1] in ("random", "numpy.random")):
+            return r[1]
+        return None
+
+    n_rt = n_ctrl = 0
+    for mod in model.modules.values():
+        runtime = mod.name.startswith(RUNTIME_MODULE_PREFIXES)
+        control = mod.name == DI
+        if not (runtime or control):
+            continue
+        for c in ast.walk(mod.tree):
+            if not isinstance(c, ast.Call):
+                continue
+            tgt = rng_target(mod, c)
+            if tgt is None:
+                continue
+            if control:
+                n_ctrl += 1
+                continue
+            n_rt += 1
+            q = lib.qualname_of(c)
+            if q in RUNTIME_RNG_OK:
+                ctx.ok(R, c, f"{q}: `{tgt}` allowed: {RUNTIME_RNG_OK[q]}")
+            else:
+                ctx.finding(
+                    R,
+                    c,
+                    f"{q} draws {tgt} at run time",
+                    f"{q} ({mod.path}) calls `{norm_text(c, 60)}` ({tgt}) while a simulation runs: the draw is neither written to the recording nor taken from a replay, so replaying "
+                    f"the simulation (Simulator.replay / simulationFromBytes) follows a different branch; run-time choices must be made through a distribution object (e.g. Options)",
+                )
+    if n_rt == 0:
+        ctx.ok(R, model.module(SI).tree.body[0], "no direct use of random / numpy.random in the modules that run during a simulation")
+    ctx.floor(R, n_ctrl, 4, "global-generator draws found in scenic.core.distributions (positive control of the matcher)")
+    # the run-time choice of `do choose` / `do shuffle` is an Options object
+    iv = model.module("scenic.core.dynamics.invocables")
+    pick = [f for q, f in iv.functions.items() if q.endswith("pickEnabledInvocable")]
+    if pick:
+        rets = [r for r in lib.returns_of(pick[0]) if r.value is not None]
+        vals = []
+        for r in rets:
+            if isinstance(r.value, ast.Name):
+                # every value the returned local may hold
+                vals.extend(n.value for n in walk_local(pick[0]) if isinstance(n, ast.Assign) and any(isinstance(t, ast.Name) and t.id == r.value.id for t in n.targets))
+            else:
+                vals.append(r.value)
+        multi = [v for v in vals if isinstance(v, ast.Call)]
+        if any(dotted(v.func) == "Options" for v in multi):
+            ctx.ok(R, pick[0], "a choice among several enabled alternatives is an Options object (sampled, recorded and replayed by Distribution.__new__)")
+        else:
+            ctx.finding(R, pick[0], "pickEnabledInvocable choice", f"pickEnabledInvocable no longer chooses among several enabled alternatives by building Options(...) (returns {[unparse(v)[:50] for v in vals]}): the choice is not recorded for replay")
+
+
 def check_divergence(ctx, R="C18.divergence"):
     ctx.rule(
         R,
@@ -400,28 +471,83 @@ def check_divergence(ctx, R="C18.divergence"):
     )
     model = ctx.model
     fn = model.func(SI, "Simulation.valuesHaveDiverged")
-    cmps = [c for c in ast.walk(fn) if isinstance(c, ast.Compare) and "divergenceTolerance" in unparse(c)]
-    if not cmps:
-        raise AnalysisError("shape not recognised: valuesHaveDiverged comparison")
-    for c in cmps:
-        q = c.left if "divergenceTolerance" in unparse(c.comparators[0]) else c.comparators[0]
-        if not isinstance(c.ops[0], (ast.Gt, ast.GtE, ast.Lt, ast.LtE)):
-            ctx.finding(R, c, "divergence comparison operator", f"`{unparse(c)}` is not an ordering comparison with the tolerance")
+    if len(fn.args.args) < 5:
+        raise AnalysisError("shape not recognised: parameters of valuesHaveDiverged")
+    exp_p, act_p = fn.args.args[3].arg, fn.args.args[4].arg  # (self, obj, prop, expected, actual)
+
+    def decide(test, env, asm):
+        # truthiness of a local whose value on this path is the constant None
+        if isinstance(test, ast.Name) and isinstance(env.get(test.id), ast.Constant) and env[test.id].value is None:
+            return False
+        return None
+
+    def resolve(e, env, depth=0):
+        if depth > 6:
+            return e
+
+        class T(ast.NodeTransformer):
+            def visit_Name(self, n):
+                v = env.get(n.id)
+                if isinstance(v, ast.AST) and isinstance(n.ctx, ast.Load) and not (isinstance(v, ast.Name) and v.id.startswith("<")):
+                    return resolve(v, env, depth + 1)
+                return n
+
+        return T().visit(lib._clone(e))
+
+    def magnitude_of_difference(e):
+        """e is |actual - expected| written as abs(a - e), (a - e).norm(), a.distanceTo(e), math.dist(a, e) ... (either order)"""
+        pair = {exp_p, act_p}
+        if isinstance(e, ast.Call):
+            cn = dotted(e.func) or ""
+            if cn in ("abs", "math.fabs", "numpy.linalg.norm", "np.linalg.norm") and len(e.args) == 1:
+                d = e.args[0]
+                return isinstance(d, ast.BinOp) and isinstance(d.op, ast.Sub) and {unparse(d.left), unparse(d.right)} == pair
+            if isinstance(e.func, ast.Attribute) and e.func.attr == "norm" and not e.args:
+                d = e.func.value
+                return isinstance(d, ast.BinOp) and isinstance(d.op, ast.Sub) and {unparse(d.left), unparse(d.right)} == pair
+            if isinstance(e.func, ast.Attribute) and e.func.attr == "distanceTo" and len(e.args) == 1:
+                return {unparse(e.func.value), unparse(e.args[0])} == pair
+            if cn == "math.dist" and len(e.args) == 2:
+                return {unparse(e.args[0]), unparse(e.args[1])} == pair
+        return False
+
+    def verdict(v):
+        """None when `v` decides divergence soundly, else what is wrong with it"""
+        # exact comparison: the strictest possible answer
+        if isinstance(v, ast.Compare) and len(v.ops) == 1 and isinstance(v.ops[0], ast.NotEq) and {unparse(v.left), unparse(v.comparators[0])} == {exp_p, act_p}:
+            return None
+        if isinstance(v, ast.UnaryOp) and isinstance(v.op, ast.Not) and isinstance(v.operand, ast.Compare) and len(v.operand.ops) == 1 and isinstance(v.operand.ops[0], ast.Eq) and {unparse(v.operand.left), unparse(v.operand.comparators[0])} == {exp_p, act_p}:
+            return None
+        if isinstance(v, ast.Compare) and len(v.ops) == 1 and isinstance(v.ops[0], (ast.Gt, ast.GtE, ast.Lt, ast.LtE)):
+            l_, r_ = v.left, v.comparators[0]
+            if isinstance(v.ops[0], (ast.Lt, ast.LtE)):
+                l_, r_ = r_, l_
+            # now: l_ > r_  or  l_ >= r_
+            if unparse(r_) != "self.divergenceTolerance":
+                return f"`{unparse(v)}` does not compare a difference with self.divergenceTolerance from above"
+            if not magnitude_of_difference(l_):
+                return (
+                    f"`{unparse(v)}` compares `{unparse(l_)}`, which is not the magnitude of the difference of `{act_p}` and `{exp_p}` (abs / norm / distance), with the tolerance: "
+                    f"a replay whose value is smaller than the recording by more than the tolerance is reported as not diverged"
+                )
+            return None
+        return f"`{unparse(v)}` is neither `|{act_p} - {exp_p}| > self.divergenceTolerance` nor the exact comparison `{act_p} != {exp_p}` (e.g. math.isclose adds a relative tolerance: small deviations of large values pass unreported even with tolerance 0)"
+
+    n = 0
+    for asm, env, ex in lib.enumerate_paths(fn, decide=decide):
+        if not isinstance(ex, ast.Return):
+            if ex is None:
+                ctx.finding(R, fn, "valuesHaveDiverged falls off its end", "a path of valuesHaveDiverged returns None (read as: not diverged)")
             continue
-        defs = [q]
-        if isinstance(q, ast.Name):
-            defs = [n.value for n in walk_local(fn) if isinstance(n, ast.Assign) and unparse(n.targets[0]) == q.id and not (isinstance(n.value, ast.Constant) and n.value.value is None)]
-        bad = [d for d in defs if _sign(d) != "NONNEG"]
-        if bad:
-            ctx.finding(
-                R,
-                c,
-                f"signed divergence {norm_text(bad[0], 40)}",
-                f"valuesHaveDiverged compares `{unparse(q)}` = `{unparse(bad[0])}` (a signed difference) one-sidedly with the tolerance: a replay whose value is "
-                f"smaller than the recording by more than the tolerance is reported as not diverged",
-            )
+        n += 1
+        v = resolve(ex.value, env) if ex.value is not None else ast.Constant(None)
+        why = verdict(v)
+        # a magnitude of 0 may also be sent to the exact comparison (`if diff:`): nothing to check there beyond the verdict
+        if why is None:
+            ctx.ok(R, ex, f"`{norm_text(v, 70)}` decides divergence from the magnitude of the difference, or exactly")
         else:
-            ctx.ok(R, c, f"`{unparse(c)}`: {[unparse(d) for d in defs]} are magnitudes")
+            ctx.finding(R, ex, f"divergence verdict {norm_text(v, 50)}", f"valuesHaveDiverged: on the path {dict(asm) or '{}'} the answer is {why}")
+    ctx.floor(R, n, 2, "result paths of valuesHaveDiverged")
 
 
 def _sign(e):
@@ -535,3 +661,4 @@ def check(ctx):
     check_divergence(ctx)
     check_streams(ctx)
     check_record(ctx)
+    check_recorded(ctx)
